@@ -40,19 +40,19 @@ import (
 
 // CaseResult is one line of the child's results file.
 type CaseResult struct {
-	ID        string `json:"id"`
-	Verdict   string `json:"verdict"` // rejected | survived | panic | stuck
-	Phase     string `json:"phase,omitempty"`
-	Err       string `json:"err,omitempty"`
-	Panic     string `json:"panic,omitempty"`
-	Stack     string `json:"stack,omitempty"`
-	Real      bool   `json:"real,omitempty"`
-	Inputs    int    `json:"inputs,omitempty"`
-	Sent      int    `json:"sent,omitempty"`
-	Chunks    int64  `json:"chunks,omitempty"`
-	Records   int64  `json:"records,omitempty"`
-	DecodeErr string `json:"decode_err,omitempty"`
-	Ms        int64  `json:"ms"`
+	ID        string         `json:"id"`
+	Verdict   string         `json:"verdict"` // rejected | survived | panic | stuck
+	Phase     string         `json:"phase,omitempty"`
+	Err       string         `json:"err,omitempty"`
+	Panic     string         `json:"panic,omitempty"`
+	Stack     string         `json:"stack,omitempty"`
+	Real      bool           `json:"real,omitempty"`
+	Inputs    int            `json:"inputs,omitempty"`
+	Sent      int            `json:"sent,omitempty"`
+	Chunks    int64          `json:"chunks,omitempty"`
+	Records   int64          `json:"records,omitempty"`
+	DecodeErr string         `json:"decode_err,omitempty"`
+	Ms        int64          `json:"ms"`
 	Extra     map[string]any `json:"extra,omitempty"`
 }
 
